@@ -173,6 +173,19 @@ func (o *objectImpl) SetProperty(name value.Value, newValue value.Value) error {
 		}
 		nameStr = property.Name
 	}
+	// the value must have the declared type of the property: the
+	// validator only sees the data and would interpret it blindly.
+	for _, property := range o.meta.Properties {
+		if property.Name != nameStr {
+			continue
+		}
+		valueSig := newValue.Signature()
+		if property.Signature != valueSig &&
+			property.Signature != "("+valueSig+")" {
+			return fmt.Errorf("property %s: invalid type %s, expecting %s",
+				nameStr, valueSig, property.Signature)
+		}
+	}
 	var buf bytes.Buffer
 	err := newValue.Write(&buf)
 	if err != nil {
